@@ -455,10 +455,12 @@ class _LocalSendRecvDepGatherer(
             from pytato.distributed.verify import DuplicateSendError
             raise DuplicateSendError(f"Multiple sends found for '{send_id}'")
 
+        # Register the send before descending into its data: a duplicate may
+        # be stapled inside the data.
+        self.local_send_id_to_send_node[send_id] = expr.send
+
         self.local_comm_ids_to_needed_comm_ids[send_id] = \
                 self.rec(expr.send.data)
-
-        self.local_send_id_to_send_node[send_id] = expr.send
 
         return self.rec(expr.passthrough_data)
 
